@@ -324,7 +324,24 @@ def rule_r5(ctx: Ctx) -> None:
     ctx.check(not found, "_serdes, _serializable.*", "no equality-keyed memo (%d modules)" % len(mods), "what is (de)serialized is decided by the schema object given, not by an equal-comparing one seen earlier", "pydsdl/_serdes.py", found)
 
 
+def rule_r6(ctx: Ctx) -> None:
+    """a delimited field that the writer's revision does not know lies in the zero-extension zone of the reader: its header
+    reads as zero with nothing remaining, which must be accepted as an empty object (and a header that does fit is never
+    rejected): the guard compares the announced payload with what remains *after* the header, nothing else"""
+    from . import codec_common as K
+    from .c07 import delimiter_guard_table
+
+    ctx.rule("C14.R6", "a nested delimited object whose header lies beyond the data (header 0, nothing remaining) or exactly fills it is accepted with a window of 8 x header bits; only a payload larger than what remains is rejected - at both copies of the header code", min_instances=2)
+    S = K.schemas(ctx)
+    for d in S["delimited"][:1]:
+        for fname, kw in (("_deserialize_composite", {}), ("deserialize", {"with_delimiter_header": True})):
+            runs = K.reader_runs(ctx, fname, d, **kw)
+            bad = delimiter_guard_table(ctx, fname, runs, rems=(0, 8, 24, 32, 64), headers=(0, 1, 3, 4, 8))
+            ctx.check(not bad, "_serdes.%s[DelimitedType]" % fname, "zero-extended and exactly fitting delimiter headers are accepted", "fields unknown to the writer read as zero / empty - also when the unknown field is itself delimited: its header is read from the implicit zeros", "pydsdl/_serdes.py", bad[:4])
+
+
 def run(ctx: Ctx) -> None:
+    ctx.attempt(rule_r6, ctx)
     ctx.attempt(rule_r1, ctx)
     ctx.attempt(rule_r2_r3, ctx)
     ctx.attempt(rule_r4, ctx)
